@@ -733,6 +733,15 @@ def run_c14(pid, tier, t0, only_chains=False):
                 return 0 if "leaf" in t or not t["kids"] else 1 + max(depth(k) for k in t["kids"])
             deep = [t for t in trees if depth(t["tree"]) >= 2]
             trees = [t for t in trees if depth(t["tree"]) < 2] + rng.sample(deep, min(250, len(deep)))
+        if tier != "quick":
+            # keep the generated program compilable: every tree up to depth 1, a seeded sample of the deeper ones, every clause
+            # list of length <= 3 and every long tuple, a seeded sample of the length-4 lists
+            def depth(t):
+                return 0 if "leaf" in t or not t["kids"] else 1 + max(depth(k) for k in t["kids"])
+            deep = [t for t in trees if depth(t["tree"]) >= 2]
+            trees = [t for t in trees if depth(t["tree"]) < 2] + rng.sample(deep, min(1000, len(deep)))
+            four = [c for c in seqs if len(c["leaves"]) == 4]
+            seqs = [c for c in seqs if len(c["leaves"]) != 4] + rng.sample(four, min(3000, len(four)))
         main_rs, exp = gen_c14.render_run(trees, seqs)
         gen.write_crate("gen_c14", main_rs)
         obs, info = gen.build_and_run("gen_c14")
